@@ -50,6 +50,7 @@ var (
 )
 
 func c08Enumerate(tier string, emit func(*eng.Case)) {
+	emit = withDecor(decorEvery(tier), emit)
 	l1, l2 := 5, 4
 	if tier == "thorough" {
 		l1, l2 = 7, 5
@@ -207,9 +208,9 @@ func init() {
 		Check:     c08Check,
 		Bounds: func(tier string) map[string]any {
 			if tier == "thorough" {
-				return map[string]any{"max_len_main": 7, "max_len_nested": 5}
+				return map[string]any{"decorated_variants": decorBound(tier), "max_len_main": 7, "max_len_nested": 5}
 			}
-			return map[string]any{"max_len_main": 5, "max_len_nested": 4}
+			return map[string]any{"decorated_variants": decorBound(tier), "max_len_main": 5, "max_len_nested": 4}
 		},
 	})
 }
